@@ -1,6 +1,6 @@
 (* C03 — the sticky decision over arbitrary interleaved packet sequences (TCP). *)
 From Coq Require Import List NArith ZArith Bool Lia.
-From Dae Require Import C03_Spec C03_Model C03_Proofs.
+From Dae Require Import C03_Spec C03_Model C03_Proofs C03_ParseProofs.
 From Dae.gen Require Import C03_Consts.
 Import ListNotations.
 Open Scope N_scope.
@@ -145,14 +145,17 @@ Proof.
   intros m k w fr now s d Hg Hexp Hd. unfold dec_of in *. rewrite Hg in Hd.
   unfold mark_tcp_seen. rewrite Hg, Hexp. cbn [snd]. rewrite tab_get_set_same.
   unfold apply_routing, no_args, a_rt.
-  destruct (gt (sub64 now (cs_last s)) TCP_CONN_STATE_UPDATE_INTERVAL_NS); destruct fr; cbn; exact Hd.
+  destruct (gt (sub64 now (cs_last s)) TCP_CONN_STATE_UPDATE_INTERVAL_NS); destruct fr; cbn [set_last set_state cs_has cs_out cs_mark cs_must]; exact Hd.
 Qed.
 
+Lemma get_tuples_proto : forall c, k_proto (fst (get_tuples c)) = c_l4proto c.
+Proof. intro c. reflexivity. Qed.
 Lemma parse_packet_key_proto : forall r ret pk, parse_packet r = (ret, Some pk) -> k_proto (pp_key pk) = pp_l4 pk /\ ret = fst r.
 Proof.
   intros [ret0 c] ret pk. unfold parse_packet.
   destruct (ret0 <? 0)%Z; [discriminate|]. destruct (c_l4proto c =? IPPROTO_ICMPV6); [discriminate|].
-  unfold get_tuples. intro H. inversion H. subst. cbn. auto.
+  pose proof (get_tuples_proto c) as Hp. destruct (get_tuples c) as [k0 d0]. cbn [fst] in Hp.
+  intro H. inversion H. subst. cbn [pp_key pp_l4 fst]. auto.
 Qed.
 
 Lemma forward_none : forall P e st ret,
@@ -255,7 +258,7 @@ Proof.
       cbn [snd] in Hoa. cbn [h_st ks_conn].
       assert (fkey_eqb (rev_key (fst (get_tuples c))) k = false) as Ek.
       { destruct (fkey_eqb (rev_key (fst (get_tuples c))) k) eqn:E; [| reflexivity].
-        apply fkey_eqb_eq in E. rewrite <- E in Hk. unfold get_tuples, rev_key in Hk. cbn in Hk.
+        apply fkey_eqb_eq in E. rewrite <- E in Hk. unfold get_tuples, rev_key in Hk. cbn [k_proto fst] in Hk.
         apply N.eqb_eq in Hu. rewrite Hu in Hk. discriminate Hk. }
       rewrite (dec_of_only_at _ _ _ _ Hoa Ek). exact Hd.
   - (* LAN egress *)
@@ -280,7 +283,106 @@ Proof.
       cbn [snd] in Hoa. cbn [h_st ks_conn].
       assert (fkey_eqb (rev_key (fst (get_tuples c))) k = false) as Ek.
       { destruct (fkey_eqb (rev_key (fst (get_tuples c))) k) eqn:E; [| reflexivity].
-        apply fkey_eqb_eq in E. rewrite <- E in Hk. unfold get_tuples, rev_key in Hk. cbn in Hk.
+        apply fkey_eqb_eq in E. rewrite <- E in Hk. unfold get_tuples, rev_key in Hk. cbn [k_proto fst] in Hk.
         apply N.eqb_eq in Hu. rewrite Hu in Hk. discriminate Hk. }
       rewrite (dec_of_only_at _ _ _ _ Hoa Ek). exact Hd.
+Qed.
+
+(* ---------- sequences ---------- *)
+Fixpoint run_steps (P : param) (st : kstate) (steps : list step) : kstate :=
+  match steps with [] => st | s :: r => run_steps P (h_st (run_hook P st s)) r end.
+Fixpoint quiet_all (P : param) (st : kstate) (steps : list step) (k : fkey) : Prop :=
+  match steps with [] => True | s :: r => quiet P st s k /\ quiet_all P (h_st (run_hook P st s)) r k end.
+
+Lemma sticky_sequence_proof : forall P steps st k d,
+  k_proto k = IPPROTO_TCP -> dec_of (ks_conn st) k = Some d -> quiet_all P st steps k ->
+  dec_of (ks_conn (run_steps P st steps)) k = Some d.
+Proof.
+  intros P steps. induction steps as [| s r IH]; intros st k d Hk Hd Hq; cbn [run_steps]; [exact Hd|].
+  destruct Hq as [Hq1 Hq2]. apply IH; [exact Hk | | exact Hq2].
+  apply step_keeps_decision; assumption.
+Qed.
+
+(* what the stored decision means for the next packet of the flow at either forward hook *)
+Definition lan_follows (P : param) (e : env) (pk : ppkt) (d : N * N * N) (h : hres) : Prop :=
+  let '(o, m, mu) := d in
+  h_query h = None /\
+  (if o =? OUTBOUND_DIRECT then h_act h = TC_ACT_OK /\ h_mark h = Some m
+   else if o =? OUTBOUND_BLOCK then h_act h = TC_ACT_SHOT
+   else if negb (wan_outbound_is_alive e o IPPROTO_TCP (k_dport (pp_key pk))) then h_act h = TC_ACT_SHOT
+   else h_act h = TC_ACT_REDIRECT /\ h_cb h = Some (TPROXY_MARK, pp_listener pk) /\
+        exists dscp, tab_get (ks_hand (h_st h)) (pp_key pk) = Some (mk_he (e_now e) (mk_rr m mu (pp_hsource pk) o 0 0 dscp))).
+Definition wan_follows (e : env) (pk : ppkt) (d : N * N * N) (h : hres) : Prop :=
+  let '(o, m, mu) := d in
+  h_query h = None /\
+  (if (o =? OUTBOUND_DIRECT) && (m =? 0) then h_act h = TC_ACT_OK
+   else if o =? OUTBOUND_BLOCK then h_act h = TC_ACT_SHOT
+   else if negb (wan_outbound_is_alive e o IPPROTO_TCP (k_dport (pp_key pk))) then h_act h = TC_ACT_SHOT
+   else h_act h = TC_ACT_REDIRECT /\ h_cb h = Some (TPROXY_MARK, 0)).
+
+Lemma tracked_entry : forall m k w fr now s d,
+  tab_get m k = Some s -> tcp_conn_state_expired s now = false -> dec_of m k = Some d ->
+  exists s', fst (mark_tcp_seen m k w false fr no_args now) = Some s' /\ cs_has s' =? 0 = false /\
+             (cs_out s', cs_mark s', cs_must s') = d.
+Proof.
+  intros m k w fr now s d Hg Hexp Hd.
+  destruct (tcp_tracking_persists_proof m k w fr now s Hg Hexp) as (s' & Hf & Hh & Ho & Hm & Hmu & _).
+  exists s'. split; [exact Hf|]. unfold dec_of in Hd. rewrite Hg in Hd.
+  destruct (cs_has s =? 0) eqn:E; [discriminate|]. inversion Hd. subst d.
+  rewrite Hh, Ho, Hm, Hmu. auto.
+Qed.
+
+Lemma lan_follows_proof : forall P e st pk d,
+  pp_l4 pk = IPPROTO_TCP -> tcp_flags_new (pp_tcp pk) = false ->
+  dec_of (ks_conn st) (pp_key pk) = Some d -> unexpired st (pp_key pk) (e_now e) ->
+  lan_follows P e pk d (lan_ingress P e st (0%Z, Some pk)).
+Proof.
+  intros P e st pk d Hl Hn Hd (s & Hg & Hexp).
+  destruct (tracked_entry _ _ false (tcp_flags_finrst (pp_tcp pk)) _ _ _ Hg Hexp Hd) as (s' & Hf & Hh & Hdd).
+  pose proof (lan_tcp_established_proof P e st pk Hl Hn) as H. cbv zeta in H. rewrite Hf, Hh in H.
+  destruct H as [Hq H]. subst d. unfold lan_follows. split; [exact Hq|].
+  destruct (cs_out s' =? OUTBOUND_DIRECT); [tauto|].
+  destruct (cs_out s' =? OUTBOUND_BLOCK); [tauto|].
+  destruct (negb (wan_outbound_is_alive e (cs_out s') IPPROTO_TCP (k_dport (pp_key pk)))); [tauto|].
+  destruct H as (Ha & Hc & _ & _ & Hh2). repeat split; try assumption. eexists. exact Hh2.
+Qed.
+
+Lemma wan_follows_proof : forall P e st pk d,
+  e_ingress_if e = 0 -> pp_l4 pk = IPPROTO_TCP -> tcp_flags_new (pp_tcp pk) = false ->
+  dec_of (ks_conn st) (pp_key pk) = Some d -> unexpired st (pp_key pk) (e_now e) ->
+  wan_follows e pk d (wan_egress P e st (0%Z, Some pk)).
+Proof.
+  intros P e st pk d Hif Hl Hn Hd (s & Hg & Hexp).
+  destruct (tracked_entry _ _ false (tcp_flags_finrst (pp_tcp pk)) _ _ _ Hg Hexp Hd) as (s' & Hf & Hh & Hdd).
+  pose proof (wan_tcp_established_proof P e st pk Hif Hl Hn) as H. cbv zeta in H. rewrite Hf, Hh in H.
+  destruct H as [Hq H]. subst d. unfold wan_follows. split; [exact Hq|].
+  destruct ((cs_out s' =? OUTBOUND_DIRECT) && (cs_mark s' =? 0)); [tauto|].
+  destruct (cs_out s' =? OUTBOUND_BLOCK); [tauto|].
+  destruct (negb (wan_outbound_is_alive e (cs_out s') IPPROTO_TCP (k_dport (pp_key pk)))); [tauto|].
+  tauto.
+Qed.
+
+(* the decision taken for the first packet (pure SYN) of a connection at LAN ingress is the one stored *)
+Lemma lan_syn_stores_proof : forall P e st pk,
+  pp_l4 pk = IPPROTO_TCP -> tcp_flags_new (pp_tcp pk) = true ->
+  (0 <= e_route e (rquery_of e pk false 0))%Z ->
+  dec_of (ks_conn (h_st (lan_ingress P e st (0%Z, Some pk)))) (pp_key pk) = Some (unpack (e_route e (rquery_of e pk false 0))).
+Proof.
+  intros P e st pk Hl Hn Hw. unfold lan_ingress. cbn [Z.eqb negb]. rewrite Hl, Hn. cbn [N.eqb IPPROTO_TCP IPPROTO_UDP Pos.eqb negb andb].
+  unfold mark_tcp_seen at 1.
+  assert (Hsyn : t_syn (pp_tcp pk) && negb (t_ack (pp_tcp pk)) = true) by exact Hn. rewrite Hsyn. cbn [negb].
+  assert (Hlt : (e_route e (rquery_of e pk false 0) <? 0)%Z = false) by (apply Z.ltb_ge; exact Hw). 
+  destruct (tab_get (ks_conn st) (pp_key pk)) as [s0|]; cbn [new_state a_rt];
+    rewrite Hlt; destruct (unpack (e_route e (rquery_of e pk false 0))) as [[o m] mu];
+    unfold redirect_lan, ret_act;
+    repeat match goal with |- context [if ?b then _ else _] => destruct b end;
+    cbn [h_st ks_conn]; unfold dec_of; rewrite tab_get_set_same; reflexivity.
+Qed.
+
+(* ---------- no result depends on the parse path ---------- *)
+Lemma path_independent_proof : forall P st hk e eth proto pf lin pf' lin' f,
+  run_hook P st (mk_step hk e eth proto pf lin f) = run_hook P st (mk_step hk e eth proto pf' lin' f).
+Proof.
+  intros. unfold run_hook. cbn [s_hook s_env s_eth s_proto s_pull_fail s_lin s_frame].
+  rewrite !parse_transport_eq_proof. reflexivity.
 Qed.
